@@ -51,8 +51,8 @@ SCENARIOS = {
         "counts": ["C06"],
     },
     "C02": {
-        "modules": ["C02", "Reachable"],
-        "theorems": ["C02_exact_reachable", "C02_bruteforce_reachable", "C02_exact", "C02_exact_usizeMax", "C02_exact_saturated", "C02_spec", "C02_unique", "C02_exact_bruteforce",
+        "modules": ["C02", "Reachable", "C02History"],
+        "theorems": ["C02_history", "C02_history_by_vector", "C02_history_by_item", "C02_history_deleted_never_returned", "C02_history_count", "C02_history_overwritten", "C02_exact_reachable", "C02_bruteforce_reachable", "C02_exact", "C02_exact_usizeMax", "C02_exact_saturated", "C02_spec", "C02_unique", "C02_exact_bruteforce",
                      "C02_by_vector", "C02_by_item"],
         "quick": [hist("c02", 120, extra=T1), hist("c02", 20), hist("c14", 8, extra=T1)],
         "thorough": [hist("c02", 1200, "thorough", extra=T1), hist("c02", 300, "thorough")],
@@ -102,8 +102,8 @@ SCENARIOS = {
         "assumptions": ["the no-temp-file / no-descriptor clause rests on Rust's Drop; it is observed on the real process (fdcheck), not proved"],
     },
     "C11": {
-        "modules": ["C11", "C11Real", "C11Reported", "C11Reported2"],
-        "theorems": ["C11_round_f32_reported_manhattan", "C11_round_f32_reported_dot", "C11_reported_symm", "C11_reported_self_zero", "C11_round_f32_reported_euclidean", "C11_round_f32_cosine", "C11_round_f32_cosine_chk", "C11_cosine_zero_norm", "C11_cosine_range_real", "C11_f32_std_model_on", "C11_round_f32_dot_product", "C11_round_f32_euclidean_distance", "C11_round_f32_manhattan_distance",
+        "modules": ["C11", "C11Real", "C11Reported", "C11Reported2", "C11Oracle", "C11OracleCosine"],
+        "theorems": ["C11_withinTolerance_of_bound", "C11_oracle_accepts_dot", "C11_oracle_accepts_euclid", "C11_definitionOracle_accepts_euclidean", "C11_definitionOracle_accepts_manhattan", "C11_definitionOracle_accepts_dot", "C11_definitionOracle_accepts_cosine", "C11_round_f32_reported_manhattan", "C11_round_f32_reported_dot", "C11_reported_symm", "C11_reported_self_zero", "C11_round_f32_reported_euclidean", "C11_round_f32_cosine", "C11_round_f32_cosine_chk", "C11_cosine_zero_norm", "C11_cosine_range_real", "C11_f32_std_model_on", "C11_round_f32_dot_product", "C11_round_f32_euclidean_distance", "C11_round_f32_manhattan_distance",
                      "C11_mul_std", "C11_add_std", "C11_fma_std", "C11_div_std", "C11_sqrt_std", "C11_cover_dot_scalar", "C11_cover_dot_sse", "C11_cover_dot_avx", "C11_cover_euclid_scalar", "C11_cover_euclid_sse",
                      "C11_cover_euclid_avx", "C11_dispatch", "C11_symm", "C11_self_zero_euclid", "C11_self_zero_manhattan",
                      "C11_cosine_range", "C11_round", "C11_round_simd"],
@@ -156,9 +156,9 @@ SCENARIOS = {
     "C15": {
         "modules": ["C15", "C15Build", "Unconditional"],
         "theorems": ["C15_capacity_all_histories", "C15_root_count", "C15_single", "C15_capacity", "C15_requested", "C15_auto", "C15_auto_cases", "C15_cap"],
-        "quick": [hist("c15", 200, extra=T1)],
+        "quick": [hist("c15", 200, extra=T1), {"name": "faults:sweep", "args": ["faults", "--seed", "{seed}", "--part", "sweep"]}],
         "thorough": [hist("c15", 1500, "thorough", extra=T1), hist("c15", 300, "thorough")],
-        "counts": ["C15"],
+        "counts": ["C15", "C10"],
     },
     "C17": {
         "modules": ["C17", "C17Reachable"],
